@@ -169,8 +169,35 @@ func (s *c22Sched) round(q int, lossy bool) {
 	}
 	thr := 2 * s.n / 3
 	var pvs, pcs []int
+	// every third round the primary (voters[round % n]) votes first and its prevote reaches the others before
+	// they prevote: determinePreVote then copies the primary's block when its number is not below the head's
+	prim := -1
+	if r.Chance(1, 3) {
+		prim = q % s.n
+		var id int
+		if s.byz[prim] {
+			blk := r.Intn(s.size())
+			if r.Chance(1, 3) {
+				blk = 0
+			}
+			id = s.vote("bv pv v%d r%d b%d", prim, q, blk)
+		} else {
+			if r.Chance(1, 3) {
+				s.op("best v%d b%d", prim, r.Pick(0, 0, 1, r.Intn(s.size())))
+			}
+			id = s.vote("pv v%d", prim)
+		}
+		pvs = append(pvs, id)
+		for _, to := range s.hon {
+			if to != prim && r.Chance(9, 10) {
+				s.op("d m%d v%d", id, to)
+			}
+		}
+	}
 	for _, i := range s.shuffle(s.hon) {
-		pvs = append(pvs, s.vote("pv v%d", i))
+		if i != prim {
+			pvs = append(pvs, s.vote("pv v%d", i))
+		}
 	}
 	for _, j := range s.byzL {
 		for k := r.Intn(3); k > 0; k-- {
